@@ -40,6 +40,10 @@ type DepWalker struct {
 	NoLoopCarriedControl bool
 	loopIdx              map[ssa.Value]bool
 	loopFns        map[*ssa.Function]bool
+	// private helpers of the root's package are walked as part of the root (like closures): their
+	// parameters denote the arguments of the calls through which the walk entered them
+	bound    map[*ssa.Parameter][]ssa.Value
+	inlining map[*ssa.Function]bool
 }
 
 func (w *DepWalker) isLoopIndex(ph *ssa.Phi) bool {
@@ -277,6 +281,12 @@ func (w *DepWalker) Walk(v ssa.Value) {
 			w.Out["param:"+strconv.Itoa(i)] = true
 			return
 		}
+		if as, ok := w.bound[x]; ok {
+			for _, a := range as {
+				w.Walk(a)
+			}
+			return
+		}
 		w.bindClosureParam(x)
 	case *ssa.FreeVar:
 		if b := FreeVarBinding(x); b != nil {
@@ -332,6 +342,39 @@ func (w *DepWalker) Walk(v ssa.Value) {
 			for _, a := range x.Call.Args {
 				w.Walk(a)
 			}
+			return
+		}
+		// a private helper of the root's package (a piece of the root factored out): walked in place
+		if g := Callee(x); PrivateHelper(g) && !x.Call.IsInvoke() && g.Pkg == outermostFn(w.Root).Pkg && g != outermostFn(w.Root) && !pureCall(FullName(g)) && len(w.inlining) < 3 && !w.inlining[g] {
+			if w.bound == nil {
+				w.bound = map[*ssa.Parameter][]ssa.Value{}
+				w.inlining = map[*ssa.Function]bool{}
+			}
+			for i, p := range g.Params {
+				if i < len(x.Call.Args) {
+					dup := false
+					for _, a := range w.bound[p] {
+						if a == x.Call.Args[i] {
+							dup = true
+						}
+					}
+					if !dup {
+						w.bound[p] = append(w.bound[p], x.Call.Args[i])
+						// a later call with other arguments: what was reached through the parameter before must
+						// also see the new argument
+						if w.seen[p] {
+							w.Walk(x.Call.Args[i])
+						}
+					}
+				}
+			}
+			w.inlining[g] = true
+			for _, ret := range Returns(g) {
+				for _, r := range ret.Results {
+					w.Walk(r)
+				}
+			}
+			delete(w.inlining, g)
 			return
 		}
 		// module callee with a body: depend only on what its results depend on
@@ -679,4 +722,11 @@ func helperCallSites(fn *ssa.Function) []ssa.CallInstruction {
 	}
 	helperSiteCache[fn] = out
 	return out
+}
+
+func outermostFn(f *ssa.Function) *ssa.Function {
+	for f.Parent() != nil {
+		f = f.Parent()
+	}
+	return f
 }
